@@ -43,6 +43,7 @@ type LV struct {
 	asort Sort   // its sort
 	idx   T      // index into arr (field: struct address; cell: ref; elem: backing ptr)
 	idx2  T      // elem: position in backing array
+	off, pos T   // elem: idx2 == off + pos
 	fresh bool   // root is an allocation of this frame
 	root  ssa.Value
 }
@@ -431,7 +432,9 @@ func (f *Frame) load(lv *LV, t types.Type) T {
 	case lvField, lvCell:
 		return Select(f.stGet(lv.arr, lv.asort), lv.idx)
 	case lvElem:
-		return Select(Select(f.stGet(lv.arr, lv.asort), lv.idx), lv.idx2)
+		_, inner := arrParts(lv.asort)
+		_, es := arrParts(inner)
+		return atTerm(f.enc, es, Select(f.stGet(lv.arr, lv.asort), lv.idx), lv.off, lv.pos)
 	case lvGlobal:
 		return f.stGet(lv.arr, lv.asort)
 	}
